@@ -462,7 +462,7 @@ fn gen_query(rng: &mut Rng, w: &World, for_pages: bool) -> (QSpec, Vec<(String, 
         gen_val(rng, w.model.fields[f].ty, via_param)
     };
     // filters
-    let nfl = match rng.below(10) { 0..=2 => 0, 3..=6 => 1, 7..=8 => 2, _ => 3 };
+    let nfl = if for_pages { if rng.chance(2, 3) { 0 } else { 1 } } else { match rng.below(10) { 0..=2 => 0, 3..=6 => 1, 7..=8 => 2, _ => 3 } };
     for _ in 0..nfl {
         let r = pick_ref(rng, &q, false);
         let f = q.ref_field(&r);
@@ -542,7 +542,7 @@ impl Stats {
     }
 }
 
-fn push_query(out: &mut Out, st: &mut Stats, w: &World, q: &QSpec, ps: &[(String, Val)], kind: &str, with_stats: bool) {
+fn push_query(out: &mut Buf, st: &mut Stats, w: &World, q: &QSpec, ps: &[(String, Val)], kind: &str, with_stats: bool) {
     let text = q.text(&w.model);
     let a = run_real(w, q, &text, ps);
     st.queries += 1;
@@ -557,13 +557,18 @@ fn push_query(out: &mut Out, st: &mut Stats, w: &World, q: &QSpec, ps: &[(String
     if with_stats { meta["generator"] = st.json(); }
     out.push(Case { kind: kind.into(), coq, obs: obs_query(&a), meta });
 }
-fn push_pages(out: &mut Out, st: &mut Stats, w: &World, q: &QSpec, ps: &[(String, Val)], n: i64, kind: &str) {
+fn push_pages(out: &mut Buf, st: &mut Stats, w: &World, q: &QSpec, ps: &[(String, Val)], n: i64, kind: &str) {
     let fuel = w.rows.len() + 2;
     let (obs, texts) = run_pages(w, q, ps, n, fuel);
     st.pages_cases += 1; st.pages_total += obs[1] as usize; if obs[0] == 0 { st.pages_complete += 1; }
     let coq = format!("CPages {} {} {} {} {} {}", w.model.coq(), rows_coq(&w.rows), q.coq(), params_coq(ps), gz(n), fuel);
     out.push(Case { kind: kind.into(), coq, obs, meta: json!({"model": w.model.text(true), "query": q.text(&w.model), "page_queries": texts.iter().take(3).collect::<Vec<_>>(), "params": format!("{:?}", ps), "rows": w.rows.len()}) });
 }
+
+/// cases are buffered so that the generator statistics can be attached to the first case (they end up in the
+/// evidence file's samples)
+struct Buf(Vec<Case>);
+impl Buf { fn push(&mut self, c: Case) { self.0.push(c) } }
 
 fn fdef(name: &str, ty: FT, nullable: bool, default: Option<Val>, phase2: bool) -> FDef { FDef { name: name.into(), ty, nullable, default, phase2, short: String::new() } }
 fn sel(field: usize, alias: Option<&str>) -> Sel { Sel { field, alias: alias.map(|s| s.to_string()) } }
@@ -588,7 +593,7 @@ fn directed_world(rng: &mut Rng) -> World {
     build_world(rng, model, 0, Some(plan))
 }
 
-fn directed(out: &mut Out, st: &mut Stats, rng: &mut Rng) {
+fn directed(out: &mut Buf, st: &mut Stats, rng: &mut Rng) {
     let w = directed_world(rng);
     let lit = |v: Val| Opnd::Lit(v);
     // clean baseline
@@ -653,7 +658,8 @@ fn directed(out: &mut Out, st: &mut Stats, rng: &mut Rng) {
 
 fn main() {
     let mut rng = Rng::from_env();
-    let mut out = Out::create();
+    let mut real_out = Out::create();
+    let mut out = Buf(vec![]);
     let mut st = Stats::default();
     directed(&mut out, &mut st, &mut rng);
     let worlds = scale(60, 900);
@@ -668,9 +674,7 @@ fn main() {
         for _ in 0..per_world_p { let (q, ps) = gen_query(&mut r, &w, true); if q.order.is_empty() { continue; } let n = r.range(1, 3); push_pages(&mut out, &mut st, &w, &q, &ps, n, "pages"); }
     }
     eprintln!("c05: {}", st.json());
-    // last case carries the generator statistics in its meta
-    let w = directed_world(&mut rng);
-    let q = qspec(vec![sel(0, None)]);
-    push_query(&mut out, &mut st, &w, &q, &[], "stats", true);
-    out.finish();
+    out.0[0].meta["generator"] = st.json();
+    for c in out.0 { real_out.push(c); }
+    real_out.finish();
 }
